@@ -159,6 +159,7 @@ for f in sorted(glob.glob(os.path.join(VERIF, "tools", "manifest_c*.json"))):
         CLAIMED[pid] = dict(text=d["text"], note=d["note"], technique=d["technique"], design=d.get("design", "6/" + pid))
 # the code translator for the bit-level decoders of cameleon/src/u3v/register_map.rs (tools/translate_decoders.py):
 # appended to the text / note / technique of C13 and C14, whatever tools/manifest_c13.json / manifest_c14.json say
+# (C08: tools/translate_ackparse.py, the decoders of ack.rs / event.rs)
 SOURCE_TIE = {
     "C01": dict(
         text=" TIE TO THE SOURCE CODE: tools/translate_codec.py re-translates on every run, from genapi/src/utils.rs into "
@@ -171,6 +172,33 @@ SOURCE_TIE = {
         note=" Also trusted: tools/translate_codec.py and lib/RustBytes.v; f32 <-> f64 conversion is the model's widen / "
              "narrow on IEEE bit patterns in the translation too.",
         technique=" + code translator (value codecs of genapi/src/utils.rs)"),
+    "C08": dict(
+        text=" TIE TO THE SOURCE CODE: tools/translate_ackparse.py (tokenizer, item and expression parser, type inference "
+             "for `let x = cursor.read_bytes_le()?`, Gallina emitter; debug-build semantics of lib/RustInt.v) re-translates on "
+             "every run, from device/src/u3v/protocol/ack.rs and event.rs into gen/AckParseSrc.v, every struct and enum, "
+             "AckPacket::{parse, parse_prefix, scd_as, status, request_id, scd_kind}, AckCcd::parse, Status::{parse, "
+             "parse_gencp_status, parse_usb_status (with their debug_assert!s), is_fatal, is_success}, ScdKind::parse, the trait "
+             "ParseScd with its five implementations (ReadMem, WriteMem, Pending, ReadMemStacked, WriteMemStacked), and "
+             "EventPacket::parse, EventCcd::parse, EventScd::parse with its loop and the local fn read_and_seek: ordered cursor "
+             "reads (width from the inferred type), seeks, every bounds comparison, slice indexing (Panic outside the slice), "
+             "checked_sub / usize addition, `?` and early returns; the two `while` loops become Fixpoints over a fuel argument. "
+             "model/CurOps.v gives the cursor operations their meaning (shape of read_bytes_le in impl/src/bytes_io.rs and of "
+             "u3v::Error pinned). C08_ack_parse_from_source (every byte list, no hypothesis), C08_views_from_source (every "
+             "acknowledge with a 16-bit SCD length, all five views through scd_as) and C08_event_parse_from_source (every byte "
+             "list shorter than 2^63) prove the translated decoders equal to model/Ack.v / model/Event.v - same fields, same "
+             "error class, same panics; C08_total_of_source states totality on the translated code (no panic, and the fuel "
+             "given to the loops is never used up), C08_conforming_of_source that every acknowledge built by "
+             "spec/GenCPLayout.v is decoded to its fields by the translated code, C08_tables_cross_check that the constants "
+             "and match tables inside the translated functions are those of gen/ProtoTables.v. A source change outside the "
+             "accepted subset is reported as a broken proof obligation (ShapeError), never translated as something else.",
+        note=" Also trusted: tools/translate_ackparse.py (parser, name / method / trait resolution, type inference, "
+             "rebinding of mutable locals, merging of the variables that branches and loop bodies rebind, erasure of "
+             "references - sound for the accepted shapes: the only `&mut` is the cursor, which is threaded explicitly, and a "
+             "Result that is not propagated is refused, so the cursor after a failed read is never observed), model/CurOps.v "
+             "(std::io::Cursor read_exact / seek / position, slice indexing, checked_sub, trailing_zeros; Vec::with_capacity "
+             "as the empty vector; Duration as milliseconds), lib/RustInt.v, and the reading of the translated records / enums "
+             "as the models' numbers (ack_of_src, status_num, scd_kind_num, events_of_src in proofs/P_C08s.v).",
+        technique=" + code translator (acknowledge / event decoders and typed views of ack.rs / event.rs, cursor primitives of bytes_io.rs pinned)"),
     "C13": dict(
         text=" TIE TO THE SOURCE CODE: tools/translate_decoders.py (typed mini-Rust parser + Gallina emitter tools/minirust.py, "
              "debug-build semantics of lib/RustInt.v: shift-amount, overflow and checked_add rules, literal typing from the "
@@ -202,6 +230,37 @@ SOURCE_TIE = {
         note=" Also trusted: tools/translate_decoders.py + tools/minirust.py and lib/RustInt.v for the three translated "
              "decoders.",
         technique=" + code translator (file version / file info decoders of register_map.rs)"),
+    "C11": dict(
+        text=" TIE TO THE SOURCE CODE: tools/translate_streamparse.py (own recursive-descent parser for the subset of Rust "
+             "these functions use, type checker, Gallina emitter; debug-build integer semantics of lib/RustInt.v; cursor "
+             "reads, slicing with Rust's panic rule, checked_sub and the `loop` with fuel of model/RdOps.v) re-translates on "
+             "every run into gen/StreamParseSrc.v: Leader::parse / parse_prefix / specific_leader_as, Trailer::parse / "
+             "parse_prefix / specific_trailer_as, the SpecificLeader / SpecificTrailer implementations of the three leaders "
+             "and three trailers, TryFrom<u16> for PayloadType / PayloadStatus, the magic constants and every getter "
+             "(device/src/u3v/protocol/stream.rs; the width of each read_bytes_le from the turbofish, the let annotation or "
+             "the struct field the value ends in; PixelFormat::try_from is the table of gen/PixelTable.v); every method of "
+             "PayloadBuilder (cameleon/src/u3v/stream_handle.rs: status check, valid_payload_size against the received count, "
+             "`as usize` casts, the backwards chunk walk with checked_sub / slice / from_be_bytes / overflow-checked `+`); "
+             "Payload::image_info / image / payload / into_vec (cameleon/src/payload.rs). Pinned: read_bytes_le of "
+             "impl/src/bytes_io.rs is ONE read_exact of size_of::<T>() bytes then from_le_bytes, `#[from] std::io::Error` is "
+             "BufferIo, the `use` lines that give the names their meaning, no struct literal of Payload / ImageInfo outside "
+             "PayloadBuilder. C11_leader_parse_from_source / C11_trailer_parse_from_source: for EVERY byte list (no length "
+             "bound) the translated decoders return exactly what model/Stream.v returns (Ok with the same fields, same error "
+             "class, Panic in the same cases), the getters return their own fields, magic / payload type / status tables are "
+             "those of gen/ProtoTables.v. C11_builder_bounds_from_source: the translated build is model/Payload.v's build for "
+             "every leader, trailer, buffer (< 2^64 bytes) and u64 / usize sizes, the loop body is chunk_walk for every fuel, "
+             "the translated payload() / image() are the model's views, into_vec() has the valid length. "
+             "C11_views_in_bounds_of_source states the property's clause on the translated code alone (decode leader and "
+             "trailer bytes, build: valid size <= received, payload() / into_vec() / image() are prefixes of the buffer, image "
+             "size <= valid size, no panic); C11_builder_total_of_source: any fuel above valid/8 gives the same result, the "
+             "chunk walk never runs out of fuel, nothing panics when received <= buffer length; C11_source_examples: "
+             "non-vacuity. A source change outside the accepted subset is reported as a broken proof obligation "
+             "(ShapeError), a change inside it breaks the equalities.",
+        note=" Also trusted: tools/translate_streamparse.py (parser, typing, width inference, erasure of references - sound "
+             "because the accepted functions mutate only a cursor / slice reader / one loop local, threaded explicitly) and "
+             "model/RdOps.v (the meaning given to Cursor::read_exact, slicing, Vec::resize, `loop`); StreamingLoop::run "
+             "(the received byte count it passes to PayloadBuilder) is C12's, not translated here.",
+        technique=" + code translator (leader / trailer decoders of stream.rs, PayloadBuilder of stream_handle.rs, Payload views of payload.rs)"),
 }
 for _pid, _d in SOURCE_TIE.items():
     if _pid in CLAIMED:
